@@ -1588,15 +1588,26 @@ func (c *ChannelStateDB) UpdateChannelCommitment(channel *OpenChannel,
 
 		// If the channel is marked as borked, then for safety reasons,
 		// we shouldn't attempt any further updates.
-		isBorked, err := isChannelBorked(channel, chanBucket)
+		diskChannel, err := fetchOpenChannel(
+			chanBucket, &channel.FundingOutpoint,
+		)
 		if err != nil {
 			return err
 		}
-		if isBorked {
+		if diskChannel.ChannelStatusForStore() != ChanStatusDefault {
 			return ErrChanBorked
 		}
 
-		if err = putChanInfo(chanBucket, channel); err != nil {
+		// Of the channel info record, only the lifetime payment totals
+		// are advanced by a commitment update. Everything else in the
+		// record (status, short channel IDs, confirmation heights, ...)
+		// is maintained by other writers, possibly through another
+		// in-memory instance of this channel, so we keep what is on
+		// disk rather than writing back the caller's view of it.
+		diskChannel.TotalMSatSent = channel.TotalMSatSent
+		diskChannel.TotalMSatReceived = channel.TotalMSatReceived
+
+		if err = putChanInfo(chanBucket, diskChannel); err != nil {
 			return fmt.Errorf("unable to store chan info: %w", err)
 		}
 
